@@ -492,6 +492,9 @@ func runC13(c *Ctx) error {
 	// the workers that hand frames to a link (switch and router workers, through Send /
 	// SendPriority) must not wait for the remote end: with the link writer stuck in the connection,
 	// further frames are dropped or refused, and the calls return
+	if err := c13ChosenSequenceNumbers(c); err != nil {
+		return err
+	}
 	if err := c13StalledPeer(c); err != nil {
 		return err
 	}
@@ -514,6 +517,126 @@ func runC13(c *Ctx) error {
 	c.Eval()
 	if obsClass(res) != 0 || !replied {
 		c.Violate("after the malformed inputs the router no longer answers a valid request", "stalled", map[string]any{"class": obsClass(res), "replied": replied, "errors": fmt.Sprint(res.routerErrs)})
+	}
+	return nil
+}
+
+// c13ChosenSequenceNumbers: a peer with end-to-end keys sends correctly sealed frames whose
+// sequence-number header field takes chosen values (around the wrap, zero, far ahead, far behind;
+// priority and regular class).  Whatever the verdict on each frame, every one is handled in
+// bounded time, and afterwards the router still handles the peer's next frame and can still seal
+// a frame for that peer.
+func c13ChosenSequenceNumbers(c *Ctx) error {
+	scripts := [][]uint32{
+		{0xFFFFFF00, 1, 2}, {0xFFFFFFFF, 0, 1}, {0xFFFFFF7F, 0xFFFFFF80, 0xFF, 0x100}, {5, 0xFFFFFFF0, 3, 4},
+		{1, 0x80000000, 2, 0x80000001}, {0xFFFFFFFE, 0xFFFFFFFF, 0xFE, 0xFF, 0x100, 1},
+	}
+	for it, n := 0, c.Pick(8, 40); it < n; it++ {
+		e, err := newCtlEnv(c, false)
+		if err != nil {
+			return err
+		}
+		R, P := e.R, e.P1
+		sRP, sPR := R.st.GetSession(P.id.IP), P.st.GetSession(R.id.IP)
+		if sRP == nil || sPR == nil {
+			return fmt.Errorf("c13: no session between linked routers")
+		}
+		if err := keyExchange(sPR.Encryption(), sRP.Encryption()); err != nil {
+			return err
+		}
+		prio := it%2 == 0
+		mt := []frame.MessageType{frame.NetworkTraffic, frame.SessionData}[c.Rng.IntN(2)]
+		if prio {
+			mt = []frame.MessageType{frame.RouterCtrl, frame.SessionCtrl}[c.Rng.IntN(2)]
+		}
+		var script []uint32
+		if it < 2*len(scripts) {
+			script = scripts[it/2]
+		} else {
+			for k, m := 0, 3+c.Rng.IntN(5); k < m; k++ {
+				script = append(script, []uint32{c.Rng.Uint32(), 0xFFFFFF00 + uint32(c.Rng.IntN(256)), uint32(c.Rng.IntN(300))}[c.Rng.IntN(3)])
+			}
+		}
+		recv := R.links[P.id.IP]
+		pPrio, pRegl := sPR.Encryption().VerifSeqHandlers()
+		rep := map[string]any{"type": int(mt), "priority": prio, "sequence_numbers": script}
+		stalled := false
+		timed := func(what string, fn func()) bool {
+			done := make(chan struct{})
+			go func() { defer close(done); recoverPanic(fn) }()
+			select {
+			case <-done:
+				return true
+			case <-time.After(3 * time.Second):
+				c.Violate(fmt.Sprintf("%s is still blocked after 3 s (peer-chosen sequence numbers %v, priority=%v)", what, script, prio), "stalled-by-sequence-number", rep)
+				stalled = true
+				return false
+			}
+		}
+		for _, q := range script {
+			h := pRegl
+			if prio {
+				h = pPrio
+			}
+			h.VerifSetOut(q - 1)
+			f, err := P.builder.NewFrameV1(P.id.IP, R.id.IP, mt, nil, randBytes(c, 10+c.Rng.IntN(100)), nil)
+			if err != nil {
+				return err
+			}
+			if err := f.Seal(sPR); err != nil {
+				f.ReturnToPool()
+				continue // the sender's own session refuses (e.g. its own rollover): nothing is sent
+			}
+			d, _ := f.FrameDataWithMargins(0, 0)
+			data := append([]byte(nil), d...)
+			f.ReturnToPool()
+			var res deliverResult
+			c.Eval()
+			if !timed("the worker handling a correctly sealed frame of a peer", func() { res = R.inject(data, recv) }) {
+				break
+			}
+			if res.panicked() {
+				c.Violate(fmt.Sprintf("a correctly sealed frame with sequence number %d crashed the handler", q), "panic-sequence-number", rep)
+			}
+		}
+		c.Count(fmt.Sprintf("category:chosen-sequence-numbers/prio=%v", prio))
+		c.NonTrivial(fmt.Sprintf("chosen-seq/%v/%v", prio, script))
+		if stalled {
+			break
+		}
+		// the router can still seal a frame for that peer ...
+		timed("sealing a frame for the peer afterwards", func() {
+			f, err := R.builder.NewFrameV1(R.id.IP, P.id.IP, mt, nil, []byte("still alive"), nil)
+			if err == nil {
+				_ = f.Seal(sRP)
+				f.ReturnToPool()
+			}
+		})
+		if stalled {
+			break
+		}
+		// ... and still answers the peer's next valid request
+		body, _ := cbor.Marshal(map[string]string{"msg": "ping"})
+		d, err := craftPing(pingSpec{from: P.id, dst: R.id.IP, msgType: frame.RouterPing, pingType: "pong", body: body, seqTime: nextCraftTime(), pingID: uint64(9000 + it)})
+		if err != nil {
+			return err
+		}
+		e.w.queue = nil
+		replied := false
+		if timed("the worker handling the peer's next request", func() {
+			R.inject(d, recv)
+			for _, q := range e.w.queue {
+				fi := parseFrameInfo(q.data)
+				if fi.ok && fi.src == R.id.IP && fi.dst == P.id.IP {
+					replied = true
+				}
+			}
+		}) && !replied {
+			c.Violate("after frames with peer-chosen sequence numbers the router no longer answers a valid request of that peer", "stalled", rep)
+		}
+		if stalled {
+			break
+		}
 	}
 	return nil
 }
